@@ -68,9 +68,21 @@ theorem NTInv.popTake (H : OHyp E rank Good) {s : St U π} (hb : Base E s) {nt :
     | some k =>
       obtain ⟨k', hk'⟩ := hkp k rfl
       exact Or.inr ⟨(k', k), AList.lookup_some_mem hk', rfl⟩
-  refine ⟨⟨hn.init, ?_, ?_, ?_, ?_, ?_⟩, ⟨key, by rw [hsucc]; exact AList.lookup_insert_self _ _ _⟩, ?_, ?_⟩
+  refine ⟨⟨hn.init, ?_, ?_, ?_, ?_, ?_, ?_⟩, ⟨key, by rw [hsucc]; exact AList.lookup_insert_self _ _ _⟩, ?_, ?_⟩
   · rw [hsucc, insert_of_lookup_none key e.2 _ hkey, hkeyEnd]
     exact chainL_snoc _ none e.2 hn.chain
+  · rw [hsucc, insert_of_lookup_none key e.2 _ hkey]
+    unfold AList.keys
+    rw [List.map_append, List.nodup_append]
+    refine ⟨hn.keys_nodup, by simp, ?_⟩
+    intro a ha b hb
+    simp only [List.map_cons, List.map_nil, List.mem_singleton] at hb
+    subst hb
+    intro hab
+    subst hab
+    have : (AList.lookup a (s.succOf nt)).isSome := AList.lookup_isSome_iff_mem_keys.mpr ha
+    rw [hkey] at this
+    cases this
   · obtain ⟨m, h1, h2⟩ := hn.first
     refine ⟨m, h1, Or.inl ?_⟩
     rw [hsucc, AList.lookup_insert]
@@ -265,11 +277,12 @@ theorem NTInv.pushStep (H : OHyp E rank Good) {s1 s3 : St U π} (hb : Base E s1)
         have hnp_ne : Tree.node F (args.set i q) ≠ Tree.node F args := fun e => hnew' (e ▸ hprogseen)
         have hPop3 : ∀ nt' x, Popped (pushBoth E s2 nt pr (Tree.node F (args.set i q))) nt' x ↔ Popped s1 nt' x := by
           intro nt' x; unfold Popped; rw [hsucc3]
-        refine ⟨⟨hs3, n3, hh3, by rw [hpb]; obtain ⟨c, rfl⟩ := hcs; exact hb.nodel⟩, ⟨?_, ?_, ?_, ?_, ?_, ?_⟩, hsucc3 nt,
+        refine ⟨⟨hs3, n3, hh3, by rw [hpb]; obtain ⟨c, rfl⟩ := hcs; exact hb.nodel⟩, ⟨?_, ?_, ?_, ?_, ?_, ?_, ?_⟩, hsucc3 nt,
           (((only_addSeen s1 nt _).trans (only_setKey _ nt _ v)).trans (only_cacheStep hcs nt)).trans
             (only_pushBoth E hk _ nt pr _), st3, ?_, ?_⟩
         · rw [hpb]; obtain ⟨c, rfl⟩ := hcs; exact hn.init
         · rw [hsucc3]; exact hn.chain
+        · rw [hsucc3]; exact hn.keys_nodup
         · obtain ⟨m, h1, h2⟩ := hn.first
           refine ⟨m, by rw [hpb]; obtain ⟨c, rfl⟩ := hcs; exact h1, Or.inl ?_⟩
           rw [hsucc3]
